@@ -69,13 +69,14 @@ def run_job(job, ctx):
                             else:
                                 lines.append(slots[1 + bi % 3])
                             bi += 1
-                        blocks.append(vbatch.BBlock([("line-count", expr)], lines))
+                        extra = [("keep-unique", None)] if (len(blocks) % 7 == 3) else []     # a second validator on the same block/file
+                        blocks.append(vbatch.BBlock([("line-count", expr)] + extra, lines))
                         if style == "c":
                             blocks.append(vbatch.BBlock([("line-count", expr)], lines, inline_first=" x0;"))
                             blocks.append(vbatch.BBlock([("line-count", expr)], lines, inline_first="   "))
             for i in range(0, len(blocks), 2500):
                 for c in vbatch.run_batch(ctx, blocks[i:i + 2500], style, "line-count", model, sig_prefix="C09",
-                                          nontrivial_fn=_nontrivial, sets_fn=_sets):
+                                          nontrivial_fn=_nontrivial, sets_fn=_sets, ignore_codes=("keep-unique",)):
                     acc.add(c)
     elif job["k"] == "rand":
         r = rng("c09", job["seed"], job["i"])
